@@ -5,7 +5,15 @@ Fail-closed: the loop of wrap_line_base, the two padders and (when present) the 
 tokenizer split_outside_quotes are compared statement by statement with the text the Coq
 model (coq/model/Wrap.v) was transcribed from; constants (default width, indentation strings,
 continuation markers) are read from the source; the tokenizer each wrap_line partial uses is
-one of two recognised shapes (shlex.split(posix=False) | split_outside_quotes)."""
+one of two recognised shapes (shlex.split(posix=False) | split_outside_quotes).
+
+Emission sites: the loop of the Fortran CodeGenerator.get_code (which lines are exempt from
+wrapping -- the comment test and its character are read from the `if` --, the level and
+indentation passed to wrap_line, the prefix put back), FortranEmitter.incorporate, the
+Python CodeGenerator._emit / emit_def_begin / emit_def_end / get_code,
+PythonClassEmitter.__init__ / incorporate and the emitter they all append to
+(pytools.codegen.CodeGenerator.__call__, indent_amount) are compared statement by statement
+with the text coq/model/WrapEmit.v was transcribed from."""
 import ast
 
 from harness.tr import HEADER, ShapeError, _find_class, _find_def, _parse, _src, coq_string
@@ -63,12 +71,99 @@ SPLIT_BODY = [
 ]
 
 
+GET_CODE_BODY = [
+    "assert not self.module_emitter.preamble",
+    "indent_spaces = @SPACES@",
+    "indentation = indent_spaces * ' '",
+    "wrapped_lines = []",
+    "for line in self.module_emitter.code:\n"
+    "    line_leading_spaces = len(line) - len(line.lstrip(' '))\n"
+    "    level = line_leading_spaces // indent_spaces\n"
+    "    line_ind = level * indentation\n"
+    "    if line[line_leading_spaces:].startswith(@CMT@):\n"
+    "        wrapped_lines.append(line)\n"
+    "    else:\n"
+    "        for wrapped_line in wrap_line(line[line_leading_spaces:], level, indentation=indentation):\n"
+    "            wrapped_lines.append(line_ind + wrapped_line)",
+    "return '\\n'.join(wrapped_lines)",
+]
+
+INCORPORATE = "for line in sub_generator.code:\n    self(line)"
+
+# pytools.codegen.CodeGenerator (the emitter both generators append to)
+EMITTER_CALL = [
+    "if not s.strip():\n"
+    "    self.code.append('')\n"
+    "else:\n"
+    "    if '\\n' in s:\n"
+    "        s = remove_common_indentation(s)\n"
+    "    for line in s.split('\\n'):\n"
+    "        self.code.append(' ' * (self.indent_amount * self.level) + line)"]
+EMITTER_GET = ["result = '\\n'.join(self.code)",
+               "if self.preamble:\n    result = '\\n'.join(self.preamble) + '\\n' + result",
+               "return result"]
+
+
 def _body(fn):
     body = list(fn.body)
     if body and isinstance(body[0], ast.Expr) and isinstance(body[0].value, ast.Constant) \
             and isinstance(body[0].value.value, str):
         body = body[1:]
     return [_src(s) for s in body]
+
+
+def _expect(cls, name, args, body, where):
+    fn = _find_def(cls, name)
+    if _src(fn.args) != args:
+        raise ShapeError("%s.%s: unexpected signature (%s)" % (where, name, _src(fn.args)))
+    got = _body(fn)
+    if got != body:
+        raise ShapeError("%s.%s: body differs from the modelled text: %r" % (where, name, got))
+    return fn
+
+
+def emitter_facts():
+    """indent_amount and the line-appending method of pytools.codegen.CodeGenerator, read from the
+    installed source without importing it."""
+    import importlib.util
+    spec = importlib.util.find_spec("pytools.codegen")
+    if spec is None or not spec.origin or not spec.origin.endswith(".py"):
+        raise ShapeError("pytools.codegen: source not found")
+    with open(spec.origin) as f:
+        tree = ast.parse(f.read(), filename=spec.origin)
+    cg = _find_class(tree, "CodeGenerator")
+    if cg.bases:
+        raise ShapeError("pytools.codegen.CodeGenerator: unexpected base classes")
+    init = _find_def(cg, "__init__")
+    body = _body(init)
+    amount = None
+    for st in init.body:
+        if isinstance(st, ast.Assign) and len(st.targets) == 1 and _src(st.targets[0]) == "self.indent_amount":
+            amount = _const(st.value, int, "pytools.codegen.CodeGenerator indent_amount")
+    if amount is None or amount < 1 or body != ["self.preamble = []", "self.code = []", "self.level = 0",
+                                                "self.indent_amount = %d" % amount]:
+        raise ShapeError("pytools.codegen.CodeGenerator.__init__: unexpected body %r" % body)
+    _expect(cg, "__call__", "self, s: str", EMITTER_CALL, "pytools.codegen.CodeGenerator")
+    _expect(cg, "get", "self", EMITTER_GET, "pytools.codegen.CodeGenerator")
+    _expect(cg, "indent", "self", ["self.level += 1"], "pytools.codegen.CodeGenerator")
+    # py_codegen's emitters add nothing to __call__ / __init__ state
+    spec2 = importlib.util.find_spec("pytools.py_codegen")
+    with open(spec2.origin) as f:
+        tree2 = ast.parse(f.read(), filename=spec2.origin)
+    pcg = _find_class(tree2, "PythonCodeGenerator")
+    if [_src(b) for b in pcg.bases] != ["CodeGeneratorBase"] or any(
+            isinstance(n, ast.FunctionDef) and n.name in ("__call__", "__init__", "get", "indent", "dedent")
+            for n in pcg.body):
+        raise ShapeError("pytools.py_codegen.PythonCodeGenerator: overrides the emitter")
+    pfg = _find_class(tree2, "PythonFunctionGenerator")
+    if [_src(b) for b in pfg.bases] != ["PythonCodeGenerator"]:
+        raise ShapeError("pytools.py_codegen.PythonFunctionGenerator: unexpected base classes")
+    fi = _find_def(pfg, "__init__")
+    if _body(fi) != ["super().__init__()", "self.name = name",
+                     "for decorator in decorators:\n    self(decorator)",
+                     "self('def {}({}):'.format(name, ', '.join(args)))", "self.indent()"]:
+        raise ShapeError("pytools.py_codegen.PythonFunctionGenerator.__init__: unexpected body")
+    return amount
 
 
 def _const(node, typ, what):
@@ -154,6 +249,26 @@ def python_facts(repo, has_split):
             "level = self._class_emitter.level + self._emitter.level",
             "for wrapped_line in wrap_line(line, level):\n    self._emitter(wrapped_line)"]:
         raise ShapeError("python.py CodeGenerator._emit: unexpected body")
+    cg = _find_class(tree, "CodeGenerator")
+    _expect(cg, "emit_def_begin", "self, name",
+            ["self._emitter = PythonFunctionEmitter('phase_' + name, ('self',))",
+             "self._name_manager.clear_locals()"], "python.py CodeGenerator")
+    _expect(cg, "emit_def_end", "self",
+            ["self._emit('')", "self._class_emitter.incorporate(self._emitter)", "del self._emitter"],
+            "python.py CodeGenerator")
+    _expect(cg, "get_code", "self", ["return self._class_emitter.get()"], "python.py CodeGenerator")
+    ce = _find_class(tree, "PythonClassEmitter")
+    if [_src(b) for b in ce.bases] != ["PythonEmitter"]:
+        raise ShapeError("python.py PythonClassEmitter: unexpected base classes")
+    _expect(ce, "__init__", "self, class_name, superclass='object'",
+            ["super().__init__()", "self('from __future__ import division, print_function')",
+             "self('class {cls}({superclass}):'.format(cls=class_name, superclass=superclass))",
+             "self.indent()"], "python.py PythonClassEmitter")
+    _expect(ce, "incorporate", "self, sub_generator", [INCORPORATE], "python.py PythonClassEmitter")
+    imports = [_src(n) for n in tree.body if isinstance(n, ast.ImportFrom) and n.module == "pytools.py_codegen"]
+    if imports != ["from pytools.py_codegen import PythonCodeGenerator as PythonEmitter, "
+                   "PythonFunctionGenerator as PythonFunctionEmitter"]:
+        raise ShapeError("python.py: the emitters are not pytools.py_codegen's (%r)" % imports)
     return marker, lex
 
 
@@ -161,27 +276,58 @@ def fortran_facts(repo, has_split):
     tree = _parse(repo, "dagrt/codegen/fortran.py")
     marker = _padder(tree, "pad_fortran", "fortran.py")
     lex = _partial(tree, "fortran.py", "pad_fortran", has_split, False)
-    gc = _find_def(_find_class(tree, "CodeGenerator"), "get_code")
-    stmts = {_src(s) for s in ast.walk(gc) if isinstance(s, (ast.Assign, ast.Call))}
-    spaces = None
-    for s in ast.walk(gc):
-        if isinstance(s, ast.Assign) and _src(s.targets[0]) == "indent_spaces":
-            spaces = _const(s.value, int, "fortran.py get_code indent_spaces")
-    if spaces is None or spaces < 1:
-        raise ShapeError("fortran.py get_code: indent_spaces = <positive int> not found")
-    for need in ("indentation = indent_spaces * ' '",
-                 "wrap_line(line[line_leading_spaces:], level, indentation=indentation)"):
-        if need not in stmts:
-            raise ShapeError("fortran.py get_code: %r not found" % need)
-    return marker, lex, " " * spaces
+    cg = _find_class(tree, "CodeGenerator")
+    gc = _find_def(cg, "get_code")
+    if _src(gc.args) != "self":
+        raise ShapeError("fortran.py get_code: unexpected signature")
+    body = _body(gc)
+    if len(body) != len(GET_CODE_BODY):
+        raise ShapeError("fortran.py get_code: number of statements differs from the modelled text")
+    stmts = [n for n in gc.body if not (isinstance(n, ast.Expr) and isinstance(n.value, ast.Constant))]
+    # indent_spaces = <positive int>
+    s1 = stmts[1]
+    if not (isinstance(s1, ast.Assign) and len(s1.targets) == 1 and _src(s1.targets[0]) == "indent_spaces"):
+        raise ShapeError("fortran.py get_code: indent_spaces = <int> not found")
+    spaces = _const(s1.value, int, "fortran.py get_code indent_spaces")
+    if spaces < 1:
+        raise ShapeError("fortran.py get_code: indent_spaces is not positive")
+    # the comment test: if line[line_leading_spaces:].startswith(<one character>):
+    loop = stmts[4]
+    cmt, test = None, "loop body not recognised"
+    if isinstance(loop, ast.For) and len(loop.body) == 4 and isinstance(loop.body[3], ast.If):
+        t = loop.body[3].test
+        test = _src(t)
+        if (isinstance(t, ast.Call) and isinstance(t.func, ast.Attribute) and t.func.attr == "startswith"
+                and _src(t.func.value) == "line[line_leading_spaces:]" and len(t.args) == 1 and not t.keywords):
+            cmt = _const(t.args[0], str, "fortran.py get_code comment test")
+    if cmt is None:
+        raise ShapeError("fortran.py get_code: the test that exempts lines from wrapping is not "
+                         "`line[line_leading_spaces:].startswith(<character>)`: %s" % test)
+    if len(cmt) != 1 or not (33 <= ord(cmt) <= 126) or cmt in "'\"&":
+        raise ShapeError("fortran.py get_code: comment character %r is not one printable ASCII character" % cmt)
+    want = [x.replace("@SPACES@", str(spaces)).replace("@CMT@", repr(cmt)) for x in GET_CODE_BODY]
+    for i, (x, y) in enumerate(zip(body, want)):
+        if x != y:
+            raise ShapeError("fortran.py get_code: statement %d differs from the modelled text: %r" % (i, x))
+    _expect(cg, "emit", "self, line", ["self.emitter(line)"], "fortran.py CodeGenerator")
+    fe = _find_class(tree, "FortranEmitter")
+    if [_src(b) for b in fe.bases] != ["FortranEmitterBase"]:
+        raise ShapeError("fortran.py FortranEmitter: unexpected base classes")
+    _expect(fe, "incorporate", "self, sub_generator", [INCORPORATE], "fortran.py FortranEmitter")
+    imports = [_src(n) for n in tree.body if isinstance(n, ast.ImportFrom) and n.module == "pytools.py_codegen"]
+    if imports != ["from pytools.py_codegen import PythonCodeGenerator as FortranEmitterBase"]:
+        raise ShapeError("fortran.py: the emitter base is not pytools.py_codegen's (%r)" % imports)
+    return marker, lex, spaces, cmt
 
 
 def facts(repo):
     width, indentation, has_split = wrap_base_facts(repo)
     pm, pl = python_facts(repo, has_split)
-    fm, fl, find = fortran_facts(repo, has_split)
+    fm, fl, spaces, cmt = fortran_facts(repo, has_split)
+    amount = emitter_facts()
     return dict(width=width, indentation=indentation, python_marker=pm, python_lex=pl,
-                fortran_marker=fm, fortran_lex=fl, fortran_indentation=find)
+                fortran_marker=fm, fortran_lex=fl, fortran_indentation=" " * spaces,
+                fortran_indent_spaces=spaces, fortran_comment=cmt, emitter_indent_amount=amount)
 
 
 def generate(repo):
@@ -198,4 +344,8 @@ def generate(repo):
     out.append('Definition fortran_marker : ascii := "%03d"%%char.' % ord(f["fortran_marker"]))
     out.append("Definition fortran_lex : lexkind := %s." % f["fortran_lex"])
     out.append("Definition fortran_indentation : string := %s." % coq_string(f["fortran_indentation"]))
+    out.append("Definition fortran_indent_spaces : nat := %d." % f["fortran_indent_spaces"])
+    out.append('Definition fortran_comment : ascii := "%03d"%%char.' % ord(f["fortran_comment"]))
+    out.append("(* pytools.codegen.CodeGenerator (the emitter of both generators) *)")
+    out.append("Definition emitter_indent_amount : nat := %d." % f["emitter_indent_amount"])
     return "\n".join(out) + "\n"
